@@ -137,7 +137,7 @@ impl Property for C17 {
     }
 
     fn budget(tier: Tier) -> u64 {
-        tier.pick(4000, 40_000)
+        tier.pick(4000, 12_000)
     }
 
     fn rule() -> &'static str {
